@@ -198,6 +198,17 @@ impl XCompoundSpec {
         ret
     }
 
+    /// the binding of a freshly constructed value: a type parameter that the constructor's arguments
+    /// did not determine (`Res::ok(1)` for `union Res<T, E>`, `none()` in a field) is the bottom type
+    pub(crate) fn complete_bind(&self, mut bind: Bind) -> Bind {
+        for name in self.generic_names.iter() {
+            if bind.get(name).is_none() {
+                bind.bound_generics.insert(*name, X_UNKNOWN.clone());
+            }
+        }
+        bind
+    }
+
     pub(crate) fn find(
         self: &Arc<Self>,
         member_name: Identifier,
